@@ -34,8 +34,12 @@ COQ_IMPORTS = "From DV Require Import Model.ZoneTextM."
 COQ_RUN = "ZoneTextM.run"
 CASE_TIMEOUT = 30.0
 TRUSTED = [
-    "model: coq/Model/ZoneTextM.v (tokenizer as a logical-line lexer, Reader.read/_rr_line/_generate_line, txn.add + node/rdataset updates, ttl/grange from_text, Zone/Node/Rdataset.to_styled_text); RDATA is a parameter: 13 types are modelled as field lists (names + verbatim tokens), every other type and the generic/base64/hex chunking options are exercised by the oracle only",
-    "names and their text form are imported from coq/Model/NameM.v (C01/C06)",
+    "model: coq/Model/ZoneTextM.v (tokenizer as a logical-line lexer, Reader.read/_rr_line/_generate_line, txn.add + node/rdataset updates, read_rrsets over the RRsets transaction, ttl/grange from_text, Zone/Node/Rdataset.to_styled_text incl. the RFC 3597 output of the wire-able types); RDATA is a parameter: 13 types are modelled as field lists (names, integers, TTLs, IPv4, character-strings, verbatim tokens), every other type and the base64/hex chunking, comment, nl, $INCLUDE, $UNICODE options are exercised by the oracle only",
+    "names and their text form are imported from coq/Model/NameM.v; the name round-trip and relativization theorems of C01/C06 (Proofs/NameText, NameTok, NameRel, NameOrder, NameValid) are used by the C09 proofs",
+]
+ASSUMPTIONS = [
+    "per-type RDATA text codecs outside the 13 modelled types are C05's property; here they only appear through the implementation-only oracle",
+    "zone_roundtrip is proved for the styles in `lossless` (no want_generic / comments / chunking options: those are covered by the oracle over the style product)",
 ]
 RULE = ("read/print/ttl/grange cases are evaluated by the model (vm_compute) and the implementation and compared exactly "
         "(node, rdataset and rdata order included); round-trip, respelling, outside-origin and CNAME oracles are evaluated on the "
@@ -578,7 +582,7 @@ def outside_block(rng, origin, allow_origin_switch=True):
     out_origin = [simple_label(rng), b"outside-%d" % rng.randrange(9), b""]
     host = [simple_label(rng)]
     recs = [b"300 IN A 192.0.2.%d", b"IN 300 TXT \"x%d\"", b"300 IN MX %d mail.elsewhere.", b"60 IN CNAME t%d.elsewhere.",
-            b"300 NS ns%d.elsewhere.", b"3600 IN AAAA 2001:db8::%d"]
+            b"300 NS ns%d.elsewhere.", b"3600 IN AAAA 2001:db8::1%d"]
     rec = lambda: rng.choice(recs) % rng.randrange(9)
     first, cont = rec(), [rec() for _ in range(rng.randint(1, 3))]
     switch = allow_origin_switch and rng.random() < 0.4
